@@ -107,8 +107,9 @@ Report(r) ==
      /\ PrintT("J " \o ToJson([kind |-> "irstat", id |-> r.rid, judged |-> TRUE, stages |-> nst,
                                 evals |-> FoldLeft(LAMBDA acc, hh : acc + Len(hh) + 1, 0, Hays(r))]))
 
+\* (the first state judges nothing: TLC evaluates initial states on a thread with a small stack)
 VARIABLE i
-Init == i \in 1..Min2(NCHAINS, NObs)
-Next == i + NCHAINS <= NObs /\ i' = i + NCHAINS
-Judged == Report(Obs[i])
+Init == i = 0
+Next == IF i = 0 THEN i' \in 1..Min2(NCHAINS, NObs) ELSE i + NCHAINS <= NObs /\ i' = i + NCHAINS
+Judged == i = 0 \/ Report(Obs[i])
 =============================================================================
